@@ -189,6 +189,19 @@ pub fn gen_elem(t: &mut Tape<'_>, c: &Ctx) -> (Elem, &'static str) {
         }
         return (c.tw.unflatten(&co), "proper-subfield");
     }
+    if c.d > 1 && t.chance(1, 10) {
+        // "almost one" / "almost minus one": the unit plus one or two further non-zero coordinates (what a hand-written
+        // `is_one` / identity fast path that forgets a coefficient mistakes for the unit)
+        let mut co = vec![BigUint::zero(); c.d];
+        co[0] = if t.chance(1, 5) { &c.prime.p - 1u32 } else { BigUint::one() };
+        let k = 1 + t.below(2) as usize;
+        for _ in 0..k {
+            let i = 1 + t.idx(c.d - 1);
+            let v = edge_value(t, &c.prime).0;
+            co[i] = if v.is_zero() { BigUint::one() } else { v };
+        }
+        return (c.tw.unflatten(&co), "unit-plus-few-coordinates");
+    }
     edge_elem(t, &c.tw, &c.prime)
 }
 
